@@ -23,7 +23,8 @@ for d in sorted(glob.glob(os.path.join(V, 'benign', 'C*-ben*'))):
     if r:
         meta['checks_run'] = {c: x for c, x in sorted(r.items()) if not c.startswith('_')}
         meta['non_zero_exits'] = {c: x['exit'] for c, x in r.items() if not c.startswith('_') and x['exit'] != 0}
-        if '_error' in r:
+        meta.pop('error', None)
+        if '_error' in r and not meta['checks_run']:
             meta['error'] = r['_error']
         meta['what_was_run'] = 'tools/par_matrix.py on benign/<id>/patch.diff (patched scratch worktree of /repo HEAD + a copy of /verif pointing at it; quick tier, all 19 checks)'
         json.dump(meta, open(mp, 'w'), indent=1)
